@@ -352,9 +352,54 @@ def h16_replace(vsel: int, remove: bool) -> bool:
     return fin(got == want)
 
 
+# ------------------------------------------------------------------------------ H16e
+# format_strings.maybe_replace_with_fstring (the use_fstrings fix): whenever a replacement is offered, it formats to
+# the same text as the original % expression for every value of the arguments.
+
+FS_TEMPLATES = ["%s", "%d", "n=%d", "%s and %s", "%d/%s", "a %s b"]
+FS_VALUES = [True, 0, 7, -3, "a", 2.5, None]
+
+
+def h16_fstring(v1: int, v2: int) -> bool:
+    """
+    post: _
+    """
+    # small selectors only (the solver enumerates them)
+    from pyanalyze.format_strings import PercentFormatString, maybe_replace_with_fstring
+
+    if excluded(v1=v1, v2=v2):
+        return skip()
+    if not (0 <= v1 < len(FS_VALUES) and 0 <= v2 < len(FS_VALUES)):
+        return skip()
+    a = b = None
+    for i, val in enumerate(FS_VALUES):
+        if v1 == i:
+            a = val
+        if v2 == i:
+            b = val
+    template = G.case["template"]
+    n = template.count("%")
+    fs = PercentFormatString.from_pattern(template)
+    na, nb = ast.Name(id="a", ctx=ast.Load()), ast.Name(id="b", ctx=ast.Load())
+    args_node = na if (n == 1 and not G.case["tuple"]) else ast.Tuple(elts=[na, nb][:n], ctx=ast.Load())
+    new = maybe_replace_with_fstring(fs, args_node)
+    if new is None:
+        return fin(True, nontrivial=False)
+    env = {"a": a, "b": b}
+    try:
+        want = eval(compile(ast.fix_missing_locations(ast.Expression(ast.BinOp(ast.Constant(template), ast.Mod(), args_node))), "<o>", "eval"), env)
+    except TypeError:
+        return fin(True, nontrivial=False)  # the original raises for these values: nothing to preserve
+    got = eval(compile(ast.fix_missing_locations(ast.Expression(new)), "<n>", "eval"), env)
+    return fin(got == want)
+
+
 def cases(tier: str, seed: int) -> List[Case]:
     out: List[Case] = []
     quick = tier == "quick"
+    for t in FS_TEMPLATES:
+        for tup in ((0, 1) if t.count("%") == 1 else (1,)):
+            out.append(Case("h16_fstring", f"fstring:{t}:{'tuple' if tup else 'single'}", {"template": t, "tuple": tup}, timeout=120, twin=True, vacuous_ok=True))
     for prog in PROGRAMS:
         out.append(Case("h16_replace", f"replace:{prog}", {"prog": prog}, timeout=120, twin=True, vacuous_ok=True))
     for n in range(1, (5 if quick else 6) + 1):
